@@ -13,7 +13,7 @@ const SPEC: Spec = Spec {
     ],
     bounds_quick: "M1 Dense(S5,3)^2 + Dense(S8+,2)^2; M2 all 1<=lx<=ly<=100 x 12x12 patterns + squares; M3 lx in {255..259,385,770} x 8 length relations x 12x12 patterns; M4 low/inner zero digits; M5 BigInt sign pairs and scalar forms on the pool; M6 dense LCG digits for every 1<=lx<=ly<=72 x 2x2 members",
     bounds_thorough: "M1; M2 all 1<=lx<=ly<=400 x 12x12 patterns + squares; M3 lx in {255..262,300,383..386,511..514,767..772,1023..1026,1537..1539,2048,2305,2309..2311} x 8 length relations x 12x12 patterns; M4; M5; M6 up to 160 digits",
-    hang_secs: 300,
+    hang_secs: 120,
     probes: Some(probes),
     max_workers: 16,
 };
